@@ -160,12 +160,17 @@ impl PageLockShard {
         entry
     }
 
-    fn try_cleanup(&self, page_id: PageId, entry: &PageLockEntry) {
+    fn try_cleanup(&self, page_id: PageId, entry: &Arc<PageLockEntry>) {
         if entry.release() {
             #[cfg(kahflane_turdb_verif)]
             crate::verif::yield_point("pl.cleanup.released");
             let mut map = self.locks.lock();
-            if entry.ref_count.load(Ordering::Acquire) == 0 {
+            // Remove only the entry that was released here. Between release() and taking the
+            // map lock it may have been revived, released and removed by another thread, and a
+            // NEW entry for the same page (currently locked by someone) inserted.
+            if entry.ref_count.load(Ordering::Acquire) == 0
+                && matches!(map.get(&page_id), Some(cur) if Arc::ptr_eq(cur, entry))
+            {
                 map.remove(&page_id);
             }
         }
